@@ -372,7 +372,81 @@ PROPS["C09"] = dict(
     stages=dict(
         quick=[native("dbg"), native("rel"), custom("miri_stage", release=True, shards=16, scale=1, name="miri:release")],
         thorough=[native("dbg"), native("rel"),
-                  custom("miri_stage", release=True, shards=16, scale=1, name="miri:release"),
-                  custom("miri_stage", release=False, shards=16, scale=1, name="miri:dev")],
+                  custom("miri_stage", release=True, shards=16, scale=8, name="miri:release"),
+                  custom("miri_stage", release=False, shards=16, scale=8, name="miri:dev")],
+    ),
+)
+
+
+def c10_processes(c):
+    """Cross-process determinism: the shipped binary, run several times in separate processes on
+    the same file, must print byte-identical stdout/stderr for exec, lint and parse."""
+    st = c["stage"]
+    binary = c["binaries"]["cli"]
+    vcheck = c["binaries"]["dbg"]
+    d = os.path.join(c["outdir"], "procs")
+    os.makedirs(d, exist_ok=True)
+    n = st.get("n", 40)
+    reps = st.get("reps", 4)
+    rc, out, err, to = c["run_proc"]([vcheck, "emit", "C10", "--out", d, "--seed", str(c["seed"]), "--n", str(n)], 300)
+    if rc != 0:
+        c["inconclusive"].append(f"emit failed: {err[-300:]}")
+        return
+    import concurrent.futures as cf
+    merged = c["merged"]
+
+    def one(i):
+        path = f"{d}/case_{i}.rock"
+        res = []
+        for sub in ("exec", "lint", "parse"):
+            obs = []
+            for _ in range(reps):
+                rc, out, err, to = c["run_proc"]([binary, sub, path], 60, stdin=b"line\n")
+                if to:
+                    return i, "timeout", None
+                obs.append((rc, out, err))
+            res.append((sub, obs))
+        return i, "ok", res
+
+    with cf.ThreadPoolExecutor(max_workers=c["NCPU"]) as ex:
+        results = list(ex.map(one, range(n)))
+    runs = 0
+    for i, status, res in results:
+        if status != "ok":
+            merged.inconclusive["cli_watchdog"] = merged.inconclusive.get("cli_watchdog", 0) + 1
+            continue
+        for sub, obs in res:
+            runs += len(obs)
+            if any(o != obs[0] for o in obs[1:]):
+                k = next(j for j, o in enumerate(obs) if o != obs[0])
+                src = open(f"{d}/case_{i}.rock").read()
+                sig = f"process_repeat_differs:{sub}"
+                detail = (f"`rrss {sub}` run #{k} differs from run #0:\n first: {obs[0]}\n  this: {obs[k]}")
+                replay = dict(property="C10", signature=sig, detail=detail, case=dict(src=src), tier=c["tier"],
+                              seed=c["seed"], cmd=[binary, sub, f"{d}/case_{i}.rock"], note="run the command several times")
+                merged.add_violation(sig, detail, replay)
+    merged.evaluations += runs
+    merged.counters["process_runs"] = merged.counters.get("process_runs", 0) + runs
+    merged.counters["process_level_programs"] = merged.counters.get("process_level_programs", 0) + n
+
+
+PROPS["C10"] = dict(
+    level="exploration",
+    technique="metamorphic equality between recorded runs: repeated in one process (fresh hasher seeds) and in separate processes of the shipped binary; H2 dictionary-order log proves the runs differed underneath",
+    level_text=("Programs that build dictionaries with 2-8 non-numeric keys and then join them, print them, compare them, nest "
+                "them or put them into error messages (plus the corpora of C04-C07) are parsed, linted and executed 8 (quick) / "
+                "32 (thorough) times in one process and, for a sample, 4 times in separate processes of the release binary: the "
+                "debug rendering of the tree, the diagnostics, stdout, the Ok/Err and the error text must be byte-identical. "
+                "The H2 hook records the raw HashMap iteration order at join/display; the evidence counts the programs for "
+                "which two or more distinct raw orders were actually observed while the visible result stayed the same."),
+    level_note="No model involved. Time and addresses never enter rrss's outputs on these paths; hasher seeds are the varying input.",
+    rule=("cases = (program, repetition) executions; distinct_nontrivial = distinct programs for which >= 2 distinct raw hash orders "
+          "of the dictionary keys were observed across the repetitions (the non-trivial ones) and all repetitions agreed."),
+    require=["comparisons", "programs.dictionary", "programs.corpus", "programs_with_two_or_more_dictionary_entries",
+             "programs_with_distinct_raw_hash_orders_observed", "process_runs"],
+    assumptions=TRUST_BASE,
+    stages=dict(
+        quick=[native("dbg"), custom("c10_processes", builds=["cli", "dbg"], n=48, reps=4)],
+        thorough=[native("dbg"), native("rel"), custom("c10_processes", builds=["cli", "dbg"], n=400, reps=8)],
     ),
 )
